@@ -1054,7 +1054,14 @@ func modelDeleteAll(f *Frame, st *State, e *ast.CallExpr, recv *Term, args []*Te
 	switch ix.kind {
 	case "id":
 		if len(e.Args) > 2 {
-			f.fail(e, "DeleteAll with id argument unsupported")
+			// DeleteAll on the full id key: at most the one row filed under that key goes
+			if _, _, two := f.varArg(st, e, args[2], 2, 1); !two || len(t.idArgFields) == 0 {
+				f.fail(e, "DeleteAll with id argument unsupported")
+			}
+			key := f.idArgsKey(st, e, args[2], t)
+			present := Ne(Select(tb, key), IntLit(0))
+			c.heapSet(st, tableHeap(t.name), Ite(failed, tb, Store(tb, key, IntLit(0))))
+			return []*Term{Ite(And(Not(failed), present), IntLit(1), IntLit(0)), Ite(failed, f.someError(), IfaceNil)}
 		}
 		c.assume(st, Forall([]*Term{k}, Eq(Select(nt, k), IntLit(0)), Select(nt, k)))
 	case "prefix":
